@@ -319,7 +319,71 @@ func plantFaults(t *rapid.T, set *ymodel.Set) []string {
 	return feats
 }
 
+// genRevisions: modules of one name with and without revisions plus importers (the bare name and undated
+// imports must bind to the same module in every load order).
+func genRevisions(t *rapid.T) Case {
+	c := Case{Runs: 3, Features: []string{"same-name-revisions"}}
+	dates := []string{"", "2019-05-05", "2020-01-01", "2021-12-31"}
+	seen := map[string]bool{}
+	n := rapid.IntRange(2, 3).Draw(t, "versions")
+	kinds := []string{"string", "int32", "boolean", "uint8"}
+	for i := 0; i < n; i++ {
+		d := rapid.SampledFrom(dates).Draw(t, "date")
+		if seen[d] {
+			continue
+		}
+		seen[d] = true
+		rev, name := "", "foo.yang"
+		if d != "" {
+			rev = " revision " + d + ";"
+			name = "foo@" + d + ".yang"
+		}
+		// each version defines t differently and has its own leaf, so a different binding shows
+		c.Sources = append(c.Sources, ymodel.Source{Name: name, Text: fmt.Sprintf("module foo { namespace \"urn:foo\"; prefix f;%s typedef t { type %s; } container c%d { leaf own { type t; } } }", rev, kinds[i], i)})
+	}
+	c.Sources = append(c.Sources, ymodel.Source{Name: "user.yang", Text: "module user { namespace \"urn:user\"; prefix u; import foo { prefix f; } leaf l { type f:t; } }"})
+	if rapid.Bool().Draw(t, "dated-importer") {
+		for d := range seen {
+			if d != "" {
+				c.Sources = append(c.Sources, ymodel.Source{Name: "user2.yang", Text: fmt.Sprintf("module user2 { namespace \"urn:user2\"; prefix u; import foo { prefix f; revision-date %s; } leaf l { type f:t; } }", d)})
+				break
+			}
+		}
+	}
+	// deterministic source order for the dated importer choice
+	sort.Slice(c.Sources, func(i, j int) bool { return c.Sources[i].Name < c.Sources[j].Name })
+	nn := len(c.Sources)
+	idx := make([]int, nn)
+	for i := range idx {
+		idx[i] = i
+	}
+	var rec func(k int)
+	rec = func(k int) {
+		if k == nn {
+			c.Perms = append(c.Perms, append([]int(nil), idx...))
+			return
+		}
+		for i := k; i < nn; i++ {
+			idx[k], idx[i] = idx[i], idx[k]
+			rec(k + 1)
+			idx[k], idx[i] = idx[i], idx[k]
+		}
+	}
+	if nn <= 4 {
+		rec(0)
+	} else {
+		c.Perms = append(c.Perms, append([]int(nil), idx...))
+		for i := 0; i < 11; i++ {
+			c.Perms = append(c.Perms, schema.Order(t, nn))
+		}
+	}
+	return c
+}
+
 func gen(t *rapid.T) Case {
+	if rapid.IntRange(0, 7).Draw(t, "revision-scenario") == 0 {
+		return genRevisions(t)
+	}
 	o := ymodel.DefaultOpts()
 	o.Budget = 18
 	set, _ := schema.Generate(t, o)
@@ -389,7 +453,7 @@ func TestCheck(t *testing.T) {
 	ev.Run(t, ev.Spec[Case]{
 		ID:    "C05",
 		Level: "exploration",
-		Rule: "module sets from the schema model biased toward ties and conflicts: identities of equal name in different modules under one base, deviations with several deviate statements, two deviating modules, chained augments, and in a third of the cases 1-3 planted faults spread over the files (unknown types and bad ranges, two augments of one name from two modules, missing augment targets, unknown groupings); every load permutation for up to 3 sources (6), model order plus 7 random orders beyond; each order is run 4 times in fresh module sets inside one process (the Go runtime re-randomises map iteration on every range). One twelfth of the cases additionally write the sources to a temporary directory and run the goyang command built from the working tree 6 times per format (tree, types) with two argument orders. " +
+		Rule: "module sets from the schema model biased toward ties and conflicts: modules of one name with and without revisions plus dated and undated importers (an eighth of the cases), identities of equal name in different modules under one base, deviations with several deviate statements, two deviating modules, chained augments, and in a third of the cases 1-3 planted faults spread over the files (unknown types and bad ranges, two augments of one name from two modules, missing augment targets, unknown groupings); every load permutation for up to 3 sources (6), model order plus 7 random orders beyond; each order is run 4 times in fresh module sets inside one process (the Go runtime re-randomises map iteration on every range). One twelfth of the cases additionally write the sources to a temporary directory and run the goyang command built from the working tree 6 times per format (tree, types) with two argument orders. " +
 			"Oracle: all runs give the identical result: load errors per source, the Process() error strings in order, and the complete canonical dump (all module and submodule trees with types, defaults, attributes, identity value lists in order); every error list is ordered by file, line, column where entries carry a position and holds no string twice; the command's exit status, stdout and stderr are byte-identical. " +
 			"Non-trivial = at least 2 sources and at least one tie/conflict/fault feature; distinct by case",
 		Assumptions: []string{
